@@ -186,7 +186,7 @@ fn tick() {
 pub fn sim_reset(cfg: &RunCfg) {
     SIM.with(|s| {
         *s.borrow_mut() = SimState {
-            budget: if cfg.budget == 0 { 50_000_000 } else { cfg.budget },
+            budget: if cfg.budget == 0 { 5_000_000 } else { cfg.budget },
             faults: cfg.faults.clone(),
             ignore_expected: cfg.ignore_expected,
             record: cfg.record_calls,
